@@ -262,6 +262,23 @@ class Model:
         visit_body(tree.body)
 
     # ---------------------------------------------------------- name resolution
+    def namedtuple_fields(self, cls_q):
+        """field names of a typing.NamedTuple class of the repository (None otherwise)"""
+        ci = self.classes.get(cls_q or "")
+        if ci is None:
+            return None
+        if not any("NamedTuple" in ast.unparse(b) for b in ci.node.bases):
+            return None
+        return [n.target.id for n in ci.node.body if isinstance(n, ast.AnnAssign) and isinstance(n.target, ast.Name)] or None
+
+    def returned_namedtuple_fields(self, func_q):
+        """fields of the NamedTuple class a repository function is annotated to return (None otherwise)"""
+        fi = self.funcs.get(func_q or "")
+        if fi is None or fi.node.returns is None:
+            return None
+        q = self.resolve_name(fi.module, fi.node.returns) if isinstance(fi.node.returns, (ast.Name, ast.Attribute)) else None
+        return self.namedtuple_fields(q)
+
     def resolve_name(self, module, node):
         """Resolve Name / Attribute chain in module scope to a qualified name (or None)."""
         if isinstance(node, ast.Subscript):
